@@ -527,6 +527,24 @@ func propCondSplit(args []string) string {
 		}
 		return fmt.Sprintf("%q is in the property's class but ConditionExpr fails: %v", text, err)
 	}
+	// A condition without quoted time strings means the same in every time zone: durations are fixed
+	// numbers of nanoseconds, so `now() - 1d` is 86400 s before the clock value whatever the calendar of the
+	// zone does in between. The split under a zone whose clock was changed during the last day / week before
+	// `Now` must be the split under UTC with the same `Now`.
+	if valuer != nil && !strings.Contains(text, "'") {
+		for _, zc := range condCalendarCases {
+			zone, err := time.LoadLocation(zc.zone)
+			if err != nil {
+				continue
+			}
+			at := time.Date(zc.y, zc.m, zc.d, 12, 0, 0, 0, zone)
+			ru, tu, eu := influxql.ConditionExpr(influxql.CloneExpr(cond), &influxql.NowValuer{Now: at, Location: time.UTC})
+			rz, tz, ez := influxql.ConditionExpr(influxql.CloneExpr(cond), &influxql.NowValuer{Now: at, Location: zone})
+			if (eu == nil) != (ez == nil) || (eu == nil && (sexpExpr(ru) != sexpExpr(rz) || !tu.Min.Equal(tz.Min) || !tu.Max.Equal(tz.Max))) {
+				return fmt.Sprintf("%q has no zone-dependent operand, but with Now=%s it splits into (%v, [%s,%s], %v) under UTC and (%v, [%s,%s], %v) under %s", text, at.UTC().Format(time.RFC3339), ru, boundText(tu.Min), boundText(tu.Max), eu, rz, boundText(tz.Min), boundText(tz.Max), ez, zc.zone)
+			}
+		}
+	}
 	// instants to test
 	minT, maxT := time.Unix(0, influxql.MinTime), time.Unix(0, influxql.MaxTime)
 	var points []time.Time
@@ -594,6 +612,18 @@ func propCondSplit(args []string) string {
 	return ""
 }
 
+// Noon on days whose zone changed its clock that day, the day before or within the week before.
+var condCalendarCases = []struct {
+	zone string
+	y    int
+	m    time.Month
+	d    int
+}{
+	{"America/Los_Angeles", 2021, time.March, 14}, {"America/Los_Angeles", 2021, time.November, 7}, {"America/Los_Angeles", 2021, time.March, 18},
+	{"Europe/Berlin", 2021, time.March, 28}, {"Europe/Berlin", 2021, time.October, 31}, {"Australia/Lord_Howe", 2021, time.April, 4},
+	{"Pacific/Apia", 2011, time.December, 31}, // the zone skipped 2011-12-30 altogether
+}
+
 func knownCondSplit(args []string) string {
 	d := propCondSplit(args)
 	if strings.HasPrefix(d, "nano-accessor:") {
@@ -646,7 +676,7 @@ func randTimeOperand(r *rand.Rand, inClass bool) string {
 	case 12:
 		return randCase(r, "now") + "()"
 	case 13, 14:
-		return randCase(r, "now") + "() " + pick(r, []string{"-", "+"}) + " " + pick(r, []string{"1h", "10s", "5m", "0s", "1w", "7d", "1ns", "15250w"})
+		return randCase(r, "now") + "() " + pick(r, []string{"-", "+"}) + " " + pick(r, []string{"1h", "10s", "5m", "0s", "1w", "7d", "1ns", "15250w", "1d", "24h", "2d", "48h", "25h"})
 	case 15:
 		return fmt.Sprintf("%d", base+int64(r.Intn(2000000000)-1000000000))
 	case 16:
